@@ -1,9 +1,11 @@
 package checks
 
 import (
+	"fmt"
 	"go/ast"
 	"go/token"
 	"go/types"
+	"strings"
 
 	"verif/internal/core"
 )
@@ -228,6 +230,125 @@ func checkRequestedResults(c *core.Ctx) {
 				}
 				c.Check(requested, "C20.R10", c.FuncName(pkg, fd), "factor "+uid.Name+" of "+fn.Pkg().Name()+".Run is requested", ce.Pos(),
 					"the second result of "+fn.Pkg().Name()+".Run is used but the call passes no ComputeU option: the routine returns nil for it and the first use panics")
+				return true
+			})
+		})
+	}
+}
+
+// checkErrorBranches (C20.R11): a branch that is taken because an error value is non-nil (`if err != nil`, `if err := f();
+// err != nil`) and leaves the function returns an error: its last result is not the literal nil. A swallowed error hands
+// the caller a zero value with a nil error, and the failure surfaces later as a nil dereference far from its cause
+// (NewHmmProbabilityVector: a config with "Pi": null crashed the importers).
+func checkErrorBranches(c *core.Ctx) {
+	c.Rule("C20.R11", "a branch taken on a non-nil error that returns from a function with an error result does not return a nil error", 400)
+	for _, p := range c.LibPkgs() {
+		info := p.TypesInfo
+		pkg := p
+		core.EachFunc(p, func(_ *ast.File, fd *ast.FuncDecl) {
+			if fd.Type.Results == nil || len(fd.Type.Results.List) == 0 {
+				return
+			}
+			last := fd.Type.Results.List[len(fd.Type.Results.List)-1]
+			if types.ExprString(last.Type) != "error" {
+				return
+			}
+			k := 0
+			ast.Inspect(fd.Body, func(n ast.Node) bool {
+				if _, isLit := n.(*ast.FuncLit); isLit {
+					return false
+				}
+				is, ok := n.(*ast.IfStmt)
+				if !ok {
+					return true
+				}
+				be, ok := ast.Unparen(is.Cond).(*ast.BinaryExpr)
+				if !ok || be.Op != token.NEQ || types.ExprString(be.Y) != "nil" {
+					return true
+				}
+				tv, ok := info.Types[be.X]
+				if !ok || types.TypeString(tv.Type, nil) != "error" {
+					return true
+				}
+				// the branch's own return (last statement)
+				if len(is.Body.List) == 0 {
+					return true
+				}
+				rs, ok := is.Body.List[len(is.Body.List)-1].(*ast.ReturnStmt)
+				if !ok || len(rs.Results) == 0 {
+					return true
+				}
+				k++
+				res := rs.Results[len(rs.Results)-1]
+				bad := types.ExprString(res) == "nil"
+				c.Check(!bad, "C20.R11", c.FuncName(pkg, fd), fmt.Sprintf("error branch #%d returns an error", k), rs.Pos(),
+					"the branch is taken because "+types.ExprString(be.X)+" is non-nil, but it returns a nil error: the caller continues with a zero value and fails later, far from the cause")
+				return true
+			})
+		})
+	}
+}
+
+// checkInterfaceComparisons (C20.R12): `a == b` on two values of an interface type panics at run time when their dynamic
+// type is not comparable (a struct with a slice or map field). For every == / != between two operands of the same
+// library-declared interface type the rule lists the library types that implement the interface by value and requires all
+// of them to be comparable (generic.Hmm.SetParameters compared two transition matrices; the constrained and hierarchical
+// ones hold slices).
+func checkInterfaceComparisons(c *core.Ctx) {
+	c.Rule("C20.R12", "== / != between two interface values is used only where every type of the interface's own package that implements it by value is comparable", 5)
+	// all named non-interface types of the library
+	var named []*types.Named
+	for _, p := range c.LibPkgs() {
+		sc := p.Types.Scope()
+		for _, nm := range sc.Names() {
+			if tn, ok := sc.Lookup(nm).(*types.TypeName); ok {
+				if nt, ok := tn.Type().(*types.Named); ok {
+					if _, isIface := nt.Underlying().(*types.Interface); !isIface {
+						named = append(named, nt)
+					}
+				}
+			}
+		}
+	}
+	for _, p := range c.LibPkgs() {
+		info := p.TypesInfo
+		pkg := p
+		core.EachFunc(p, func(_ *ast.File, fd *ast.FuncDecl) {
+			k := 0
+			ast.Inspect(fd.Body, func(n ast.Node) bool {
+				be, ok := n.(*ast.BinaryExpr)
+				if !ok || (be.Op != token.EQL && be.Op != token.NEQ) {
+					return true
+				}
+				tx, ok1 := info.Types[be.X]
+				ty, ok2 := info.Types[be.Y]
+				if !ok1 || !ok2 || tx.IsNil() || ty.IsNil() {
+					return true
+				}
+				ix, okx := tx.Type.Underlying().(*types.Interface)
+				_, oky := ty.Type.Underlying().(*types.Interface)
+				if !okx || !oky || ix.NumMethods() == 0 {
+					return true
+				}
+				if nt, ok := tx.Type.(*types.Named); !ok || nt.Obj().Pkg() == nil || !strings.HasPrefix(nt.Obj().Pkg().Path(), core.RootPkg) {
+					return true
+				}
+				k++
+				bad := ""
+				ipkg := tx.Type.(*types.Named).Obj().Pkg()
+				for _, nt := range named {
+					// intended inhabitants: implementors declared next to the interface (a type that merely embeds a value of a
+					// foreign interface type is not what the comparing code expects to meet)
+					if nt.Obj().Pkg() != ipkg {
+						continue
+					}
+					if types.Implements(nt, ix) && !types.Comparable(nt) {
+						bad = nt.Obj().Pkg().Name() + "." + nt.Obj().Name()
+						break
+					}
+				}
+				c.Check(bad == "", "C20.R12", c.FuncName(pkg, fd), fmt.Sprintf("interface comparison #%d %s", k, types.ExprString(be)), be.Pos(),
+					"the operands have interface type "+types.TypeString(tx.Type, nil)+", which "+bad+" implements by value although it is not comparable (it holds a slice or map): the comparison panics at run time when an operand has that dynamic type")
 				return true
 			})
 		})
